@@ -6,6 +6,7 @@ import (
 	"go/token"
 	"go/types"
 	"math/big"
+	"slices"
 	"sort"
 	"strings"
 
@@ -301,14 +302,26 @@ func ruleSkipAdvance(c *Ctx, B *Bound) {
 					}
 				}
 				adv := false
+				// n itself, or the merge of the consumed counts of sibling branches
+				var carriers []ssa.Value
 				if nres != nil {
-					for _, r := range *nres.Referrers() {
+					carriers = append(carriers, nres)
+					for i := 0; i < len(carriers) && i < 8; i++ {
+						for _, r := range *carriers[i].Referrers() {
+							if ph, ok := r.(*ssa.Phi); ok && !slices.Contains(carriers, ssa.Value(ph)) {
+								carriers = append(carriers, ph)
+							}
+						}
+					}
+				}
+				for _, cv := range carriers {
+					for _, r := range *cv.Referrers() {
 						bo, ok := r.(*ssa.BinOp)
 						if !ok || bo.Op != token.ADD {
 							continue
 						}
 						other := bo.X
-						if other == nres {
+						if other == cv {
 							other = bo.Y
 						}
 						d, ok := a.lin(other).sub(low)
